@@ -46,15 +46,18 @@ type Order struct {
 
 // RunSpec is everything one scan needs.
 type RunSpec struct {
-	Mode         string        `json:"mode"` // "sim": SimFS with a virtual root; "real": sandboxed directory, DirectFS
-	OS           string        `json:"os"`   // linux | windows | mac  (Capabilities.OS)
-	Running      bool          `json:"running,omitempty"`
-	Files        []FileSpec    `json:"files"`
-	Dirs         []string      `json:"dirs,omitempty"` // extra (empty) directories
-	Order        Order         `json:"order"`
-	Disk         scan.DiskPlan `json:"disk"`
-	ReadSymlinks bool          `json:"read_symlinks,omitempty"`
-	CancelAt     int           `json:"cancel_at"` // -1 never; sim: seam event index; real: index of the Extract call
+	Mode    string        `json:"mode"` // "sim": SimFS with a virtual root; "real": sandboxed directory, DirectFS
+	OS      string        `json:"os"`   // linux | windows | mac  (Capabilities.OS)
+	Running bool          `json:"running,omitempty"`
+	Files   []FileSpec    `json:"files"`
+	Dirs    []string      `json:"dirs,omitempty"` // extra (empty) directories
+	Order   Order         `json:"order"`
+	Disk    scan.DiskPlan `json:"disk"`
+	// ListKey != 0: every directory lists its entries in the order of a keyed hash of their names
+	// (0 = sorted by name).  The listing order is the simulated disk's decision, part of the scenario.
+	ListKey      uint64 `json:"list_key,omitempty"`
+	ReadSymlinks bool   `json:"read_symlinks,omitempty"`
+	CancelAt     int    `json:"cancel_at"` // -1 never; sim: seam event index; real: index of the Extract call
 	// CancelOn (sim): cancel when the K-th occurrence of (Op, Path) is recorded, e.g. the 3rd read
 	// of an rpm database = in the middle of GetRealPath's temporary copy.
 	CancelOn *scan.Fault `json:"cancel_on,omitempty"`
@@ -357,6 +360,11 @@ func buildTree(spec *RunSpec, corrupt bool) (*scan.Node, int, error) {
 	}
 	root.WalkTree(func(_ string, x *scan.Node) {
 		sort.SliceStable(x.Children, func(i, j int) bool { return x.Children[i].Name < x.Children[j].Name })
+		if spec.ListKey != 0 {
+			sort.SliceStable(x.Children, func(i, j int) bool {
+				return nameHash(spec.ListKey, x.Children[i].Name) < nameHash(spec.ListKey, x.Children[j].Name)
+			})
+		}
 	})
 	return root, total, nil
 }
@@ -696,4 +704,16 @@ func isKnown(prop, key string) bool {
 		}
 	}
 	return false
+}
+
+// nameHash orders directory entries for a listing-order key (FNV-1a over key and name, mixed).
+func nameHash(key uint64, name string) uint64 {
+	h := uint64(14695981039346656037) ^ key
+	for i := 0; i < len(name); i++ {
+		h ^= uint64(name[i])
+		h *= 1099511628211
+	}
+	h ^= h >> 29
+	h *= 0xbf58476d1ce4e5b9
+	return h ^ h>>32
 }
